@@ -36,6 +36,7 @@ def gen_sweep_spec(seed: int, q: int, idx: int):
     other.update(name="p1", kind="ok")
     spec = {"files": {}, "decoys": {}, "procs": [], "prop": PROP, "idx": idx, "sweep": q}
     cliworld.place_inputs(rng, [inp, other], spec)
+    cliworld.add_decoys(rng, spec, 0.5, ["p0", "p1"])
     spec["procs"].append(cliworld.make_proc(rng, inp, 0))
     spec["procs"].append(cliworld.make_proc(rng, inp, 1))
     if b % 2:
@@ -66,7 +67,7 @@ def gen_spec(seed: int, idx: int, tier: str) -> tuple[dict, list[dict], random.R
     inputs = [cliworld.make_input(rng, f"p{j}", p_bad=0.25) for j in range(k_inputs)]
     spec = {"files": {}, "decoys": {}, "procs": [], "prop": PROP, "idx": idx}
     cliworld.place_inputs(rng, inputs, spec)
-    cliworld.add_decoys(rng, spec, 0.5)
+    cliworld.add_decoys(rng, spec, 0.5, [i["name"] for i in inputs])
     for i in range(n):
         inp = inputs[rng.randrange(len(inputs))]
         spec["procs"].append(cliworld.make_proc(rng, inp, i))
